@@ -870,3 +870,42 @@ package decoder
 //@   loop 3: invariant 1 <= i && i <= 5 && cursor + 5 < len(buf) && (forall m :: 1 <= m && m < i ==> isHex(buf[cursor + m]))
 //@   loop 3: decreases 5 - i
 //@   nomerge
+
+// ---------------------------------------------------------------- stream twins of the integer decoders (C16, C09)
+// The stream scanners are trusted for the token shape only; what is proved is the part the two modes
+// share by copy: the parsed value is stored at most once, only on success, only if it fits the kind.
+//@ func (*intDecoder).decodeStreamByte(d, s) (res, err)
+//@   props C16 C09
+//@   trusted stream-mode integer scanner (refill branches; covered by the bounded chunking stand-in)
+//@   requires d != nil && s != nil
+//@   ensures err == nil && res != nil ==> len(res) >= 1 && len(res) <= cap(res) && tokChars(res, 0, len(res))
+//@   assigns M, Stream.buf, Stream.bufSize, Stream.length, Stream.cursor, Stream.offset, Stream.filledBuffer, Stream.allRead, Stream.readErr
+
+//@ func (*uintDecoder).decodeStreamByte(d, s) (res, err)
+//@   props C16 C09
+//@   trusted stream-mode integer scanner (refill branches; covered by the bounded chunking stand-in)
+//@   requires d != nil && s != nil
+//@   ensures err == nil && res != nil ==> len(res) >= 1 && len(res) <= cap(res) && digitsAt(res, 0, len(res))
+//@   assigns M, Stream.buf, Stream.bufSize, Stream.length, Stream.cursor, Stream.offset, Stream.filledBuffer, Stream.allRead, Stream.readErr
+
+//@ func (*Stream).reset(s)
+//@   props C09
+//@   trusted drops the consumed prefix of the window
+//@   requires s != nil
+//@   assigns Stream.buf, Stream.offset, Stream.length, Stream.cursor
+
+//@ func (*intDecoder).DecodeStream(d, s, depth, p) (err)
+//@   props C16 C09
+//@   requires d != nil && s != nil
+//@   ensures err != nil ==> ncalls("intDecoder.op") == old(ncalls("intDecoder.op"))
+//@   ensures ncalls("intDecoder.op") == old(ncalls("intDecoder.op")) || ncalls("intDecoder.op") == old(ncalls("intDecoder.op")) + 1
+//@   ensures ncalls("intDecoder.op") != old(ncalls("intDecoder.op")) ==> callarg("intDecoder.op", 1) == p && fitsInt(callarg("intDecoder.op", 2), old(d.kind))
+//@   assigns all
+
+//@ func (*uintDecoder).DecodeStream(d, s, depth, p) (err)
+//@   props C16 C09
+//@   requires d != nil && s != nil
+//@   ensures err != nil ==> ncalls("uintDecoder.op") == old(ncalls("uintDecoder.op"))
+//@   ensures ncalls("uintDecoder.op") == old(ncalls("uintDecoder.op")) || ncalls("uintDecoder.op") == old(ncalls("uintDecoder.op")) + 1
+//@   ensures ncalls("uintDecoder.op") != old(ncalls("uintDecoder.op")) ==> callarg("uintDecoder.op", 1) == p && fitsUint(callarg("uintDecoder.op", 2), old(d.kind))
+//@   assigns all
